@@ -215,6 +215,11 @@ func (node *BinaryExprNode) getTypedExpr() (BoolNode, error) {
 }
 
 func (node *BinaryExprNode) handleIsNullOps() (BoolNode, error) {
+	if _, isCount := node.left.(*CountSetExprNode); isCount {
+		// a count is never null; IsNilExprNode would inspect whatever cursor state the counted set
+		// symbol happens to have (and dereferences a nil cursor for dotted set symbols)
+		return node.invalidOpTypes()
+	}
 	symbolNode, isSymbol := node.left.(SymbolNode)
 	if isSymbol && (node.op == BinaryOpEQ || node.op == BinaryOpNEQ) {
 		return &IsNilExprNode{
